@@ -146,7 +146,7 @@ def showEnt : Sem.EntRes → String
 def showLift : Conc.LiftRes → String
   | .ok p => showPolicy p
   | .err => "ERR"
-  | .panic => "PANIC"
+  | .errThreshold => "ERRTHRESH"
 
 def okbadP (b : Bool) : String := if b then "ok" else "bad"
 
@@ -187,7 +187,7 @@ def opsPolicy (kind op : String) (args : List String) : Option String :=
     pure (okbadP (equivOn (atomsOf p ++ atomsOf q) p q))
   | "J", "nf", [_, q] => do
     -- the output of `normalized` / `at_age` / `at_lock_time` / `lift` is in normal form
-    if q == "ERR" then pure "ok" else do
+    if q == "ERR" || q == "ERRTHRESH" then pure "ok" else do
     let q ← parsePolicy q
     pure (okbadP (NF q))
   | "J", "atage", [a, p, q] => do
@@ -215,6 +215,8 @@ def opsPolicy (kind op : String) (args : List String) : Option String :=
   | "J", "clift", [c, q] => do
     let c ← parseCPolicy c
     if q == "ERR" then pure "ok"          -- refusal is judged by `checktl`
+    -- an `and` / `or` without children has no `Threshold`: refusing it is no wrong answer
+    else if q == "ERRTHRESH" then pure (okbadP (!andOrNonEmpty c))
     else if q == "PANIC" then pure "bad"
     else do
       let q ← parsePolicy q
